@@ -38,7 +38,10 @@ class CallMixin:
                 for kw in node.keywords:
                     s, v = self.ev1(kw.value, s)
                     kwargs[kw.arg] = v
-                kwargs['*'] = star
+                if isinstance(star, VTuple):
+                    args = args + list(star.items)          # f(*tuple): the items become positional arguments
+                else:
+                    kwargs['*'] = star
                 for s2, v in self.call(s, fv, args, kwargs, node):
                     yield s2, v
                 continue
